@@ -34,13 +34,12 @@ def _dict_literal(f, name_or_ret):
 
 def _written(ctx, f):
     """(top-level dict literal, data keys, properties keys) of a detector to_dict."""
-    lits = [v for _, v in local_defs(f, "dct") if isinstance(v, ast.Dict)]
-    if not lits:
-        rets = [r.value for r in returns_of(f) if isinstance(r.value, ast.Dict)]
-        lits = rets
-    if len(lits) != 1:
-        raise AnalysisError(f"{f.qual}: dictionary literal not found")
+    rets = [expand(f, r.value) for r in returns_of(f) if r.value is not None]
+    lits = [v for v in rets if isinstance(v, ast.Dict)]
+    if len(lits) != 1 or len(rets) != 1:
+        raise AnalysisError(f"{f.qual}: does not return one dictionary display")
     top = lits[0]
+    # sub-dictionaries may be named intermediates (`properties = {...}`): expand() already inlined them
     m = {k.value: v for k, v in zip(top.keys, top.values) if isinstance(k, ast.Constant)}
     return top, m
 
